@@ -15,6 +15,7 @@ THEOREMS = ["Cog.Builder." + t for t in [
     "C17_seq_counterexample_shared_pointer", "C17_seq_counterexample_unfold_after_index",
     "C17_frame_norules_partial", "C17_frame_norules_counterexample", "C17_frame_counterexample_shared_pointer",
     "C17_option_frame", "C17_option_frame_counterexample", "C17_seq_counterexample_sf_opts_after_append",
+    "C17_derived_WT", "C17_end_to_end",
 ]]
 PROPOSED = os.path.join(WORK, "proposed_findings_C17.json")
 WITNESSES = ["dup-option-default", "dup-builder-default", "dismissed", "rename-args-constraint",
@@ -115,6 +116,11 @@ def main():
     # 3. the well-typedness predicate itself: Lean WT vs Go goWT on real outputs
     wrows, wdis, _ = c.correspond(hb, "c17-wt", nontrivial=lambda r: "f" in r[1], n=n // 2, seed=c.seed + 1000, tier=c.tier)
     dist["wt:outputs-not-well-typed"] = sum(1 for r in wrows if "f" in r[1])
+    derived = [r for r in wrows if len(r) > 3 and r[3].endswith("derived")]
+    bad = [r for r in derived if "f" in r[1]]
+    c.oblige("conclusion of C17_derived_WT on the real code: all %d derived builder sets (FromAST outputs) are well-typed" % len(derived), not bad, [b[3] for b in bad[:5]])
+    for b in bad[:2]:
+        c.violation({"kind": "oracle-failure", "stream": "c17-wt", "case": b[3][:-len("derived")], "request": b[0], "impl": b[1], "oracle": "FAIL derived-builders-not-well-typed: " + b[1]})
     c.cov["distribution"] = dict(dist)
     c.finish("cd /verif/lean && lake build Cog.Props.C17 drv && lake env lean <#print axioms of the C17_* theorems>; harness c17-veneer / c17-wt / c17-str vs drv; harness oracle",
              "schema sets (C16 generator + arrays, maps, booleans, struct-typed and disjunction-typed fields) -> FromAST -> 1-4 (thorough 1-8) rules of all 10 builder and 12 option kinds in 1-3 files (languages all / go / java, selectors exact / case-variant / missing / empty), through the YAML loader; non-trivial = the rewriter changed the builders; distinct by (rules, schemas, result)")
